@@ -26,9 +26,9 @@ LEVEL_TEXT = {
     'C11': 'Bounded model checking under the same symbolic scheduler of llgo\'s semaphore (semaAcquire/semaRelease), notify list (the primitives under sync.Mutex/Cond/WaitGroup) and sync/atomic.Value: no lost wake-up, mutual exclusion, Wait returns only for a covered ticket, Swap/CompareAndSwap linearizable, first write through Store / Swap / CompareAndSwap never exposes a half-published value. Scheduling points sit before and after every atomic operation, so check-then-act races on plain memory next to atomics are explored.',
     'C16': 'Bounded symbolic differential of llgo\'s //go:embed directive parsing against the reference toolchain\'s own go/build.parseGoEmbed (copied verbatim from GOROOT at check time): all argument texts <= 3 bytes (4 in thorough) over a 12-byte stress alphabet, directive recognition, and the embed.FS sort key against embed.split.',
     'C20': 'Bounded symbolic verification of extractTarGz / extractZip with the archive readers replaced by nondeterministic stubs: for every entry name <= 5 bytes (7 in thorough), type flag and link name, every file-system call stays inside the destination, escaping entries are rejected, benign entries are accepted.',
-    'C02': 'Translation validation per one-operator function: the function is executed under Go-specification semantics (go/ssa) and on the LLVM IR that llgo\'s real pipeline (build.Do) emits for it; the solver proves equal result / equal panic status and absence of LLVM poison or UB for ALL operand values at full width (633 functions: every operator x 11 integer types, all 121 shift operand/count pairs, all integer conversion pairs, float32/64 arithmetic, comparisons and int<->float conversions, complex + - * == !=).',
+    'C02': 'Bounded differential of the runtime\'s Complex128Div against the reference toolchain\'s own complex128div (copied verbatim from GOROOT at check time) on all 4096 combinations of the special values {+0,-0,1,-2.5,+Inf,-Inf,NaN,MaxFloat64}; and translation validation per one-operator function: the function is executed under Go-specification semantics (go/ssa) and on the LLVM IR that llgo\'s real pipeline (build.Do) emits for it; the solver proves equal result / equal panic status and absence of LLVM poison or UB for ALL operand values at full width (633 functions: every operator x 11 integer types, all 121 shift operand/count pairs, all integer conversion pairs, float32/64 arithmetic, comparisons and int<->float conversions, complex + - * == !=).',
     'C05': 'Bounded symbolic verification of the runtime slice/string kernels (go/ssa of runtime/internal/runtime executed symbolically): one step from an arbitrary valid pre-state per kernel, all element values and all header values within the stated element-count bounds; UTF-8 decode/encode differential against unicode/utf8 for all byte strings <= 5 bytes and all 2^32 runes; string kernels (StringEqual / StringLess incl. operands that are windows of one buffer, StringCat, StringToBytes / StringFromBytes round trip and freshness, StringIterNext) for all strings <= 3 bytes. The solver verdict covers every input inside the bounds; nothing is sampled.',
-    'C17': 'Bounded symbolic verification of the round-trip laws of shellparse.Parse and safesplit.SplitPkgConfigFlags over all argument lists within the stated rune/byte bounds (runes symbolic over Latin-1 plus wide runes, bytes fully symbolic).',
+    'C17': 'Bounded symbolic verification of the round-trip laws of shellparse.Parse (double-quoted, single-quoted and unquoted arguments) and safesplit.SplitPkgConfigFlags over all argument lists within the stated rune/byte bounds (runes symbolic over Latin-1 plus wide runes, bytes fully symbolic).',
     'C18': 'Bounded symbolic verification of targets.Loader: the merge law for every field of Config (harness generated from the struct definition at check time) and inheritance resolution over all graphs on 2-3 nodes (chains, diamonds, cycles, self-loops, missing parents) against an independent reference, as a history of loads through one loader.',
 }
 NOTE = {
@@ -41,7 +41,7 @@ NOTE = {
     'C03': 'Signal delivery (SIGSEGV re-arming) is not modelled; nil-map writes and failed type assertions (llgo raises the latter with a string value, not a runtime.Error - the property only asks for a panic) are covered by 7 forms; channel panics (send on / close of a closed or nil channel, plain and in select) are covered for one goroutine through 9 forms against an oracle channel model; nil faults are modelled as accesses inside the unmapped 1 MiB nil region.',
     'C04': 'Goexit, goroutine-exit defers and O2 are outside; the corpus is fixed (not seeded) because llgo\'s defer lowering has known defects (three recorded known findings).',
     'C10': 'Preemption bound 2 (3 thorough), no spurious wake-ups in quick; >= 4 threads, timers and the compiler lowering of select/chan ops are outside. Known finding: close racing an unbuffered hand-off.',
-    'C11': 'The standard library sync types on top of these primitives, goroutine start (go statement lowering) and atomics lowering are outside this check; preemption bound 2 (3 thorough).',
+    'C11': 'The standard library sync types on top of these primitives, goroutine start (go statement lowering) and atomics lowering are outside this check; preemption bound 2 (3 in the thorough tier for the semaphore / notify-list configurations; 2 in both tiers for atomic.Value, where 3 does not finish); spin-wait paths are cut after 300 scheduling points (reported inconclusive).',
     'C16': 'File-system resolution of patterns (ResolvePatterns, CheckPath) is outside (needs a real directory tree and go list as oracle).',
     'C20': 'Environment stubs: os.Open, gzip/tar/zip readers, os.MkdirAll/OpenFile/Create/Symlink (events), io.Copy; names contain no NUL; xz extraction (external tar), file contents and lock-file concurrency are outside.',
     'C02': 'Trusted: z3/cvc5, go/ssa, symx encodings of Go operator semantics and of LLVM LangRef 14 (poison rules), LLVM 14 binding as IR producer (instruction selection by llgo\'s cl/ssa is the same Go code as with LLVM 19). Wide division is abstracted as an uninterpreted function with concrete-evaluation refinement (sound for unsat). Float->int only on the representable range; complex division, NaN payloads and constant-folded expressions are outside.',
